@@ -129,6 +129,12 @@ func runBatch(c *check, replay string) int {
 		for i, r := range rs {
 			rp := r.path
 			failed, out := false, ""
+			var rawCase map[string]json.RawMessage
+			json.Unmarshal(r.rf.Case, &rawCase)
+			if r.item.Dropped != "" && strings.HasPrefix(r.item.Dropped, "gocc") && string(rawCase["reject_ok"]) == "true" {
+				// a grammar that gocc may either handle correctly or refuse: refused
+				continue
+			}
 			if r.item.Dropped != "" {
 				// the grammar no longer makes it into a binary: the case cannot be evaluated
 				failed, out = true, "grammar dropped: "+r.item.Dropped
